@@ -227,6 +227,12 @@ func c07EnumerateSmall(thorough bool) []c07ID {
 			}
 		}
 	}
+	// the implicit `arg` table of vararg functions occupies a register right behind the parameters
+	for k := 0; k <= 6; k++ {
+		for use := 0; use < c07CompatArgUses; use++ {
+			ids = append(ids, c07ID{Family: "compatarg", P: []int{k, use}})
+		}
+	}
 	// a constructor as an operand: the words it ends with (extended SETLIST batch word) sit
 	// directly in front of the consuming instruction, where the operand propagation looks
 	for _, k := range []int{3, 51, 25549, 25550, 25551, 25599, 25600, 25601, 51150, 51151} {
@@ -297,6 +303,10 @@ func c07Make(id c07ID) *c07Case {
 	case "ctor":
 		if need(3) {
 			return c07MakeCtor(id, p[0], p[1], p[2])
+		}
+	case "compatarg":
+		if need(2) {
+			return c07MakeCompatArg(id, p[0], p[1])
 		}
 	case "ctoruse":
 		if need(3) {
@@ -556,6 +566,43 @@ func c07MakeConsts(id c07ID, v, k int) *c07Case {
 		return nil
 	}
 	return &c07Case{ID: id, Src: sb.String(), Exec: true, Expect: expect, ExSig: fmt.Sprintf("consts/v%d", v), Note: fmt.Sprintf("%s (k=%d)", note, k)}
+}
+
+const c07CompatArgUses = 7
+
+// c07MakeCompatArg: a vararg function with k named parameters whose only use of a register beyond
+// its parameters is the implicit `arg` table (LUA_COMPAT_VARARG), called with k+2 arguments.
+func c07MakeCompatArg(id c07ID, k, use int) *c07Case {
+	if k < 0 || use < 0 || use >= c07CompatArgUses {
+		return nil
+	}
+	params := append(c07Names("p", 1, k), "...")
+	args := strings.Join(c07Nums(1, k+2), ",")
+	var body string
+	var want float64
+	switch use {
+	case 0:
+		body, want = "return arg.n", 2
+	case 1:
+		body, want = "return #arg", 2
+	case 2:
+		body, want = "return arg[2]", float64(k+2)
+	case 3:
+		body, want = "local a = arg return a.n + a[1]", float64(2+k+1)
+	case 4:
+		body, want = "return (arg).n", 2
+	case 5, 6:
+		// the table itself is returned straight from its register: no temporary is ever used
+		body, want = "return arg", 2
+	}
+	src := "local function f(" + strings.Join(params, ",") + ") " + body + " end return f(" + args + ")"
+	if use == 5 {
+		src = "local function f(" + strings.Join(params, ",") + ") " + body + " end return f(" + args + ").n"
+	}
+	if use == 6 {
+		src = "local o = {} function o:m(" + strings.Join(params, ",") + ") " + body + " end return o:m(" + args + ").n"
+	}
+	return &c07Case{ID: id, Src: src, Exec: true, Expect: c07ExpectNum(want), ExSig: fmt.Sprintf("compatarg/u%d", use), Note: fmt.Sprintf("vararg function with %d named parameters using only the implicit arg table (use %d)", k, use)}
 }
 
 const c07CtorUses = 8
